@@ -373,8 +373,12 @@ def ojn_spec_of(case):
     rs = random.Random(case["seed"])
     score = case["score"]
     diffs = []
-    for ch in score["charts"]:
-        pk = _pos_pkgs(1, [(Fraction(m), float(v)) for m, v in score["tempo"][1:]])
+    for k, ch in enumerate(score["charts"]):
+        tempo_k = list(score["tempo"][1:])
+        if k > 0 and tempo_k and rs.random() < 0.5:
+            # the difficulties of one .ojn carry their own tempo channel: later ones may have fewer tempo events
+            tempo_k = tempo_k[: rs.randrange(0, len(tempo_k))]
+        pk = _pos_pkgs(1, [(Fraction(m), float(v)) for m, v in tempo_k])
         per_col = {}
         for c, b, ln in ch["objs"]:
             b, ln = Fraction(b), Fraction(ln)
@@ -722,7 +726,12 @@ def _selfcheck_source(case, charts):
     sc = Score(case["score"])
     assert len(charts) == len(case["score"]["charts"]), "chart count"
     slack = 0.5 + 1e-6 if case.get("int_ms") else 1e-6
-    for ch, d in zip(case["score"]["charts"], charts):
+    pairs = list(zip(case["score"]["charts"], charts))
+    if case["src"] == "o2j":
+        # difficulties after the first may carry fewer tempo events than the score (see ojn_spec_of); the byte
+        # builder and den_ojn are cross-checked against each other by C07's own self-check
+        pairs = pairs[:1]
+    for ch, d in pairs:
         w = sc.intended(ch)
         key = lambda o: (o[1], float(o[2]))  # noqa
         assert len(w["objs"]) == len(d["objs"]), "object count"
